@@ -419,6 +419,10 @@ pub fn register_hooks(reg: &mut Handlebars<'static>, mask: u32) {
     if mask & 2 != 0 {
         reg.register_helper("blockHelperMissing", Box::new(BlockHelperMissing));
     }
+    if mask & 4 != 0 {
+        // a value-returning hook (defined with `handlebars_helper!`, so `call` is the trait's default)
+        reg.register_helper("helperMissing", Box::new(m0));
+    }
 }
 
 /// Marking escape fn (`esc 2`).
